@@ -14,16 +14,42 @@ open ChibiVerif.Init
 
 /-! ### the parser's node and the specification's object -/
 
-/-- the parser works on node `c` of type `ty`, which is the subobject at `p` of the specification's current object `obj` -/
-structure At (root : Ty) (obj : Init) (p : List Nat) (ty : Ty) (c : Init) : Prop where
+/-- the parser works on node `c` of type `ty`, which is the subobject at `p` of the specification's current object `obj`
+    (of type `root`; when `root` is a struct with a flexible array member it is the declared object itself, `top`, and `p` is
+    neither the struct nor the flexible member: those two nodes are handled by Lemmas/InitFlexLemmas.lean) -/
+structure At (root : Ty) (top : Bool) (obj : Init) (p : List Nat) (ty : Ty) (c : Init) : Prop where
   rootOk : tyOk root = true
-  shp : shaped root obj = true
+  topOk : isFlexRoot root = true → top = true
+  pok : pathOk root p = true
+  shp : shapedR root obj = true
   sub : subTy root p = some ty
   get : getAt obj p = some c
   ok : subOk ty = true
 
-theorem At.shapedc {root : Ty} {obj : Init} {p : List Nat} {ty : Ty} {c : Init} (h : At root obj p ty c) : shaped ty c = true :=
-  shaped_getAt p root obj ty c h.shp h.sub h.get
+theorem At.shapedc {root : Ty} {top : Bool} {obj : Init} {p : List Nat} {ty : Ty} {c : Init} (h : At root top obj p ty c) :
+    shaped ty c = true :=
+  shapedR_getAt h.shp h.pok h.sub h.get
+
+/-- nothing at the parser's node can grow -/
+theorem At.ng {root : Ty} {top : Bool} {obj : Init} {p : List Nat} {ty : Ty} {c : Init} (h : At root top obj p ty c) :
+    growable root top p = false :=
+  growable_false_of h.rootOk h.pok h.sub h.ok
+
+theorem At.modifyAt_eq {root : Ty} {top : Bool} {obj : Init} {p : List Nat} {ty : Ty} {c : Init} (h : At root top obj p ty c)
+    (f : Ty → Init → Except Fail Init) (hsw : switchesUnion obj p = false) :
+    modifyAt root top f root [] p obj = (f ty c >>= fun v => pure (setAtM obj p v)) :=
+  modifyAt_eqR root top f h.rootOk h.topOk h.shp h.pok h.sub h.get hsw
+
+theorem pathOk_snoc {root : Ty} {p : List Nat} (h : pathOk root p = true) (k : Nat) : pathOk root (p ++ [k]) = true := by
+  cases root with
+  | struct ms sz fl =>
+    cases fl with
+    | false => rfl
+    | true =>
+      cases p with
+      | nil => simp [pathOk] at h
+      | cons a p => cases p <;> simp [pathOk]
+  | _ => rfl
 
 theorem getAt_one {obj : Init} {k : Nat} {c : Init} (h : obj.children[k]? = some c) : getAt obj [k] = some c := by
   rw [getAt_cons_of_some _ h]; simp [getAt]
@@ -31,38 +57,42 @@ theorem getAt_one {obj : Init} {k : Nat} {c : Init} (h : obj.children[k]? = some
 theorem subTy_one (t : Ty) (k : Nat) : subTy t [k] = childTy t k := by
   rw [subTy_cons]; cases childTy t k <;> simp [subTy]
 
-theorem At.child {root : Ty} {obj : Init} {p : List Nat} {ty : Ty} {c : Init} (h : At root obj p ty c) {k : Nat} {tc : Ty} {ck : Init}
-    (ht : childTy ty k = some tc) (hk : c.children[k]? = some ck) : At root obj (p ++ [k]) tc ck where
+theorem At.child {root : Ty} {top : Bool} {obj : Init} {p : List Nat} {ty : Ty} {c : Init} (h : At root top obj p ty c) {k : Nat} {tc : Ty} {ck : Init}
+    (ht : childTy ty k = some tc) (hk : c.children[k]? = some ck) : At root top obj (p ++ [k]) tc ck where
   rootOk := h.rootOk
+  topOk := h.topOk
+  pok := pathOk_snoc h.pok k
   shp := h.shp
   sub := by rw [subTy_append p [k] root ty h.sub, subTy_one, ht]
   get := by rw [getAt_append p [k] obj c h.get, getAt_one hk]
   ok := tyOk_child (subOk_tyOk ty h.ok) ht
 
 /-- after the parser has replaced the node at `p` -/
-theorem At.set {root : Ty} {obj : Init} {p : List Nat} {ty : Ty} {c : Init} (h : At root obj p ty c) {v : Init}
-    (hv : shaped ty v = true) : At root (setAtM obj p v) p ty v where
+theorem At.set {root : Ty} {top : Bool} {obj : Init} {p : List Nat} {ty : Ty} {c : Init} (h : At root top obj p ty c) {v : Init}
+    (hv : shaped ty v = true) : At root top (setAtM obj p v) p ty v where
   rootOk := h.rootOk
-  shp := shaped_setAtM p root obj ty c v h.shp h.sub h.get hv
+  topOk := h.topOk
+  pok := h.pok
+  shp := shapedR_setAtM h.shp h.pok h.sub h.get hv
   sub := h.sub
   get := getAt_setAtM p obj c v h.get
   ok := h.ok
 
-theorem At.marked_set {root : Ty} {obj : Init} {p : List Nat} {ty : Ty} {c : Init} (h : At root obj p ty c) (v : Init) :
+theorem At.marked_set {root : Ty} {top : Bool} {obj : Init} {p : List Nat} {ty : Ty} {c : Init} (h : At root top obj p ty c) (v : Init) :
     setAtM (setAtM obj p v) p v = setAtM obj p v :=
   setAtM_setAtM p obj c v v h.get
 
 /-- after the parser has replaced child `k` of the node at `p`: the node at `p` is the old one with that child replaced -/
-theorem At.set_child {root : Ty} {obj : Init} {p : List Nat} {ty : Ty} {c : Init} (h : At root obj p ty c) {k : Nat} {tc : Ty}
+theorem At.set_child {root : Ty} {top : Bool} {obj : Init} {p : List Nat} {ty : Ty} {c : Init} (h : At root top obj p ty c) {k : Nat} {tc : Ty}
     {ck v : Init} (ht : childTy ty k = some tc) (hk : c.children[k]? = some ck) (hv : shaped tc v = true) :
-    setAtM obj (p ++ [k]) v = setAtM obj p (setAtM c [k] v) ∧ At root (setAtM obj (p ++ [k]) v) p ty (setAtM c [k] v) ∧
+    setAtM obj (p ++ [k]) v = setAtM obj p (setAtM c [k] v) ∧ At root top (setAtM obj (p ++ [k]) v) p ty (setAtM c [k] v) ∧
       setAtM (setAtM obj (p ++ [k]) v) p (setAtM c [k] v) = setAtM obj (p ++ [k]) v := by
   have e : setAtM obj (p ++ [k]) v = setAtM obj p (setAtM c [k] v) := setAtM_append p [k] obj c v h.get
   have hs : shaped ty (setAtM c [k] v) = true := shaped_set_child h.shapedc ht hk hv
   rw [e]
   exact ⟨rfl, h.set hs, h.marked_set _⟩
 
-theorem setAtM_over {root : Ty} {obj : Init} {p : List Nat} {ty : Ty} {c : Init} (h : At root obj p ty c) (v w : Init) :
+theorem setAtM_over {root : Ty} {top : Bool} {obj : Init} {p : List Nat} {ty : Ty} {c : Init} (h : At root top obj p ty c) (v w : Init) :
     setAtM (setAtM obj p v) p w = setAtM obj p w :=
   setAtM_setAtM p obj c v w h.get
 
@@ -87,21 +117,8 @@ theorem leaf_of_shaped {sz : Nat} {k : SKind} {c : Init} (h : shaped (.scalar sz
   cases c <;> simp [shaped] at h
   exact ⟨_, rfl⟩
 
-theorem growable_false {root : Ty} {top : Bool} {p : List Nat} {e : Ty} {n : Nat} (ho : tyOk root = true)
-    (ht : subTy root p = some (.array e n)) : growable root top p = false := by
-  cases root with
-  | scalar => simp [growable]
-  | array => simp [growable]
-  | inc e' =>
-    cases p with
-    | nil => simp [subTy] at ht
-    | cons k p => simp [growable]
-  | struct ms sz fl =>
-    simp only [tyOk, subOk, Bool.and_eq_true, Bool.not_eq_true'] at ho
-    rw [ho.1]; simp [growable]
-  | union ms sz fl =>
-    simp only [tyOk, subOk, Bool.and_eq_true, Bool.not_eq_true'] at ho
-    rw [ho.1.1]; simp [growable]
+theorem growable_false {root : Ty} {top : Bool} {obj : Init} {p : List Nat} {ty : Ty} {c : Init} (h : At root top obj p ty c) :
+    growable root top p = false := h.ng
 
 theorem skipTok_ok {t : ITok} {what : String} {toks r : List ITok} (h : skipTok t what toks = .ok r) : toks = t :: r := by
   unfold skipTok at h
@@ -124,54 +141,54 @@ def Elides (t : Ty) (toks : List ITok) : Prop := ∀ tok r, toks = tok :: r → 
 
 def Init2St (f : Nat) : Prop :=
   ∀ {root : Ty} {top : Bool} {obj : Init} {p : List Nat} {ty : Ty} {c : Init} {toks : List ITok} {c' : Init} {toks' : List ITok},
-    At root obj p ty c → initializer2 f ty toks c = .ok (c', toks') →
+    At root top obj p ty c → initializer2 f ty toks c = .ok (c', toks') →
     shaped ty c' = true ∧ ∀ g fl, ∃ g', Imp (initItem g root top obj [p] toks fl) (After root top obj p c' toks' fl g')
 
 def DesgSt (f : Nat) : Prop :=
   ∀ {root : Ty} {top : Bool} {obj : Init} {p : List Nat} {ty : Ty} {c : Init} {toks : List ITok} {c' : Init} {toks' : List ITok},
-    At root obj p ty c → designation f ty toks c = .ok (c', toks') →
+    At root top obj p ty c → designation f ty toks c = .ok (c', toks') →
     shaped ty c' = true ∧ ∀ g d fl, ∃ g', Imp (afterDesg g root top obj fl (desigPaths root top d [p] toks))
       (After root top obj p c' toks' fl g')
 
 def Arr2LoopSt (f : Nat) : Prop :=
   ∀ {root : Ty} {top : Bool} {obj : Init} {p : List Nat} {elem : Ty} {len : Nat} {c : Init} {toks : List ITok} {i : Nat} {c' : Init}
     {toks' : List ITok},
-    At root obj p (.array elem len) c → 0 < i → arrayInit2Loop f elem toks c i = .ok (c', toks') →
+    At root top obj p (.array elem len) c → 0 < i → arrayInit2Loop f elem toks c i = .ok (c', toks') →
     shaped (.array elem len) c' = true ∧ (setAtM obj p c = obj → ∀ g fl, ∃ g',
       Imp (initList g root top obj (cursorIn root top p i) toks false fl) (After root top obj p c' toks' fl g'))
 
 def Arr2Loop0St (f : Nat) : Prop :=
   ∀ {root : Ty} {top : Bool} {obj : Init} {p : List Nat} {elem : Ty} {len : Nat} {c : Init} {toks : List ITok} {c' : Init}
     {toks' : List ITok},
-    At root obj p (.array elem len) c → Elides (.array elem len) toks → arrayInit2Loop f elem toks c 0 = .ok (c', toks') →
+    At root top obj p (.array elem len) c → Elides (.array elem len) toks → arrayInit2Loop f elem toks c 0 = .ok (c', toks') →
     shaped (.array elem len) c' = true ∧ ∀ g fl, ∃ g',
       Imp (initItem g root top obj [p] toks fl) (After root top obj p c' toks' fl g')
 
 def Arr2St (f : Nat) : Prop :=
   ∀ {root : Ty} {top : Bool} {obj : Init} {p : List Nat} {elem : Ty} {len : Nat} {c : Init} {toks : List ITok} {i : Nat} {c' : Init}
     {toks' : List ITok},
-    At root obj p (.array elem len) c → 0 < i → arrayInit2 f elem toks c i = .ok (c', toks') →
+    At root top obj p (.array elem len) c → 0 < i → arrayInit2 f elem toks c i = .ok (c', toks') →
     shaped (.array elem len) c' = true ∧ (setAtM obj p c = obj → ∀ g fl, ∃ g',
       Imp (initList g root top obj (cursorIn root top p i) toks false fl) (After root top obj p c' toks' fl g'))
 
 def Arr20St (f : Nat) : Prop :=
   ∀ {root : Ty} {top : Bool} {obj : Init} {p : List Nat} {elem : Ty} {len : Nat} {c : Init} {toks : List ITok} {c' : Init}
     {toks' : List ITok},
-    At root obj p (.array elem len) c → Elides (.array elem len) toks → arrayInit2 f elem toks c 0 = .ok (c', toks') →
+    At root top obj p (.array elem len) c → Elides (.array elem len) toks → arrayInit2 f elem toks c 0 = .ok (c', toks') →
     shaped (.array elem len) c' = true ∧ ∀ g fl, ∃ g',
       Imp (initItem g root top obj [p] toks fl) (After root top obj p c' toks' fl g')
 
 def Struct2St (f : Nat) : Prop :=
   ∀ {root : Ty} {top : Bool} {obj : Init} {p : List Nat} {ms : Members} {sz : Nat} {fl0 : Bool} {c : Init} {toks : List ITok}
     {mem : Nat} {c' : Init} {toks' : List ITok},
-    At root obj p (.struct ms sz fl0) c → structInit2 f ms toks c mem false = .ok (c', toks') →
+    At root top obj p (.struct ms sz fl0) c → structInit2 f ms toks c mem false = .ok (c', toks') →
     shaped (.struct ms sz fl0) c' = true ∧ (setAtM obj p c = obj → hasAggExpr c = false → ∀ g fl, ∃ g',
       Imp (initList g root top obj (cursorIn root top p mem) toks false fl) (After root top obj p c' toks' fl g'))
 
 def Struct20St (f : Nat) : Prop :=
   ∀ {root : Ty} {top : Bool} {obj : Init} {p : List Nat} {ms : Members} {sz : Nat} {fl0 : Bool} {c : Init} {tok : ITok}
     {r : List ITok} {mem : Nat} {c' : Init} {toks' : List ITok},
-    At root obj p (.struct ms sz fl0) c → tok ≠ .lbrace → startable tok = true → stopsAt (.struct ms sz fl0) tok = false →
+    At root top obj p (.struct ms sz fl0) c → tok ≠ .lbrace → startable tok = true → stopsAt (.struct ms sz fl0) tok = false →
     (∀ j, j < mem → ∃ mi t, ms[j]? = some (mi, t) ∧ unnamedBf mi = true) →
     structInit2 f ms (tok :: r) c mem true = .ok (c', toks') →
     shaped (.struct ms sz fl0) c' = true ∧ ∀ g fl, ∃ g',
@@ -180,7 +197,7 @@ def Struct20St (f : Nat) : Prop :=
 def Union0St (f : Nat) : Prop :=
   ∀ {root : Ty} {top : Bool} {obj : Init} {p : List Nat} {ms : Members} {sz : Nat} {fl0 : Bool} {c : Init} {tok : ITok}
     {r : List ITok} {c' : Init} {toks' : List ITok},
-    At root obj p (.union ms sz fl0) c → tok ≠ .lbrace → startable tok = true → stopsAt (.union ms sz fl0) tok = false →
+    At root top obj p (.union ms sz fl0) c → tok ≠ .lbrace → startable tok = true → stopsAt (.union ms sz fl0) tok = false →
     unionInit f ms (tok :: r) c = .ok (c', toks') →
     shaped (.union ms sz fl0) c' = true ∧ ∀ g fl, ∃ g',
       Imp (initItem g root top obj [p] (tok :: r) fl) (After root top obj p c' toks' fl g')
